@@ -235,6 +235,9 @@ pub fn header_contents() -> Vec<Item> {
         map(vec![(u(1), u(3)), (u(6), b(b"piv")), (i(-65537), arr(vec![u(1)]))]),
         map(vec![(u(99), u(1)), (t("a"), b(b"\x00")), (i(-1), map(vec![(u(1), u(2))]))]),
         map(vec![(u(300), Item::float(1.5)), (u(8), u(u64::MAX))]),
+        // values that are not equal to themselves / have several float widths
+        map(vec![(u(99), Item::float(f64::NAN))]),
+        map(vec![(u(1), i(-7)), (u(8), arr(vec![Item::float(f64::NAN), Item::float(-0.0), Item::float(1.0)]))]),
     ]
 }
 
